@@ -27,6 +27,8 @@ type Engine struct {
 	intrCache       sync.Map
 
 	runtimeErrorString types.Type
+	protoName          map[string]string
+	protoType          map[string]types.Type
 
 	maxSteps      int
 	maxDecisions  int
@@ -41,6 +43,8 @@ type Engine struct {
 	timeoutMs  int
 
 	loadTime time.Duration
+	tmpl     *Path
+	tmplMu   sync.Mutex
 	repo     string
 }
 
